@@ -40,9 +40,15 @@ func nonNilErr(f *Frame, rt types.Type, hint string) *SVal {
 func init() {
 	// ---------------- time
 	models["time.Now"] = func(f *Frame, args []*SVal, rt types.Type, pos token.Pos) *SVal {
-		f.used("time.Now returns an arbitrary valid time (wall clock only)")
-		v := f.g.freshVal(rt, "now")
-		f.g.assume(f.curReach, f.g.typeInv(v))
+		f.used("time.Now returns an arbitrary valid time not before the ghost clock (wall clock only, monotone)")
+		g := f.g
+		v := g.freshVal(rt, "now")
+		g.assume(f.curReach, g.typeInv(v))
+		cs, cn := g.clockOf(f.curState)
+		g.assume(f.curReach, timeLE(cs, cn, v.Sub[0].Term, v.Sub[1].Term))
+		f.curState = g.clone(f.curState)
+		g.heapSet(f.curState, clockSec, SBV64, v.Sub[0].Term)
+		g.heapSet(f.curState, clockNsec, SBV64, v.Sub[1].Term)
 		return v
 	}
 	models["(time.Time).Unix"] = func(f *Frame, args []*SVal, rt types.Type, pos token.Pos) *SVal {
